@@ -2,7 +2,7 @@
 # confirm3.sh <prop> [cargo-test-flags]: round-3 confirmation in the agent's scratch worktree /tmp/s3-<prop>:
 # (1) suite passes with the change, (2) demo fails with it, (3) demo passes without it.
 P=$1; shift; FLAGS="$@"
-W=/tmp/s3-$P; O=/tmp/s3-$P-out
+R=${ROUND:-s3}; W=/tmp/$R-$P; O=/tmp/$R-$P-out
 export CARGO_TARGET_DIR=$W/target CARGO_NET_OFFLINE=true
 cd $W || exit 2
 rm -f tests/zz_demo.rs
